@@ -35,24 +35,24 @@ type hvh struct {
 // (judged by the reference predicates) and what it emitted.
 type nodeMon struct {
 	// inputs judged by the reference
-	proposals map[hvh]bool              // proposal (h,v,hash) signed by leader(v) delivered (standalone or inside NEW_VIEW), or own
-	validNV   map[hv]map[string]bool    // (h,v) -> hashes proposed by a reference-valid NEW_VIEW delivered; value: needs consumer validation
-	prepares  map[hvh]map[string]bool   // authentic PREPARE senders
-	commits   map[hvh]map[string]bool   // authentic COMMIT senders (valid share)
+	proposals map[hvh]bool                // proposal (h,v,hash) signed by leader(v) delivered (standalone or inside NEW_VIEW), or own
+	validNV   map[hv]map[string]bool      // (h,v) -> hashes proposed by a reference-valid NEW_VIEW delivered; value: needs consumer validation
+	prepares  map[hvh]map[string]bool     // authentic PREPARE senders
+	commits   map[hvh]map[string]bool     // authentic COMMIT senders (valid share)
 	votes     map[hv]map[string]*ref.Vote // authentic votes addressed to this node
-	validated map[string]bool           // hashes this node's ValidateBlockProposal approved
-	barePP    map[hvh]bool              // authentic standalone PREPREPARE of leader(v), v>0, delivered
+	validated map[string]bool             // hashes this node's ValidateBlockProposal approved
+	barePP    map[hvh]bool                // authentic standalone PREPREPARE of leader(v), v>0, delivered
 	// outputs
-	sentPP    map[hv]string
-	sentP     map[hv]string
-	sentC     map[hv]string
-	lastVC    map[uint64]int64
-	storedVC  map[hv]map[string]*interfaces.ViewChangeMessage // votes the node counted (StoreViewChange ok)
+	sentPP   map[hv]string
+	sentP    map[hv]string
+	sentC    map[hv]string
+	lastVC   map[uint64]int64
+	storedVC map[hv]map[string]*interfaces.ViewChangeMessage // votes the node counted (StoreViewChange ok)
 	// C13
-	lastCommitH int64
-	lastRoundH  int64
+	lastCommitH  int64
+	lastRoundH   int64
 	lastH, lastV uint64
-	sampled     bool
+	sampled      bool
 }
 
 func newNodeMon() *nodeMon {
@@ -67,11 +67,11 @@ type Monitors struct {
 	Viol  []Violation
 	Stats map[string]int
 	// C01
-	decided map[uint64]string
+	decided   map[uint64]string
 	decidedBy map[uint64]string
 	// C04 knowledge
-	minted    map[string]bool // hashes minted by correct nodes' RequestNewBlockProposal
-	approved  map[string]bool // hashes approved by some correct member's validator (hash|h)
+	minted   map[string]bool // hashes minted by correct nodes' RequestNewBlockProposal
+	approved map[string]bool // hashes approved by some correct member's validator (hash|h)
 	// current delivery context (effects are attributed inside the synchronous call)
 	cur *deliveryCtx
 	// switches
@@ -128,12 +128,12 @@ type preState struct {
 }
 
 type deliveryCtx struct {
-	n         *Node
-	f         *Flight
-	pre       preState
-	mustIgn   string // non-empty: reference says this message must not influence the node; value = reason
-	hadPP     bool   // C11: proposal already stored for (m.H, m.V) before delivery
-	inComm    bool
+	n       *Node
+	f       *Flight
+	pre     preState
+	mustIgn string // non-empty: reference says this message must not influence the node; value = reason
+	hadPP   bool   // C11: proposal already stored for (m.H, m.V) before delivery
+	inComm  bool
 }
 
 func (m *Monitors) PreStep(n *Node) *deliveryCtx {
